@@ -1,4 +1,4 @@
-CONSTANTS Comp = "pool" DBSeq <- DB2 KeySeq <- Key3 PutKeys <- PutK1 Vals <- Val1 Big = 3 MaxFlush = 2 MaxDrops = 2 MaxBulk = 1
+CONSTANTS Comp = "pool" DBSeq <- DB2 KeySeq <- Key3 PutKeys <- PutK1 Vals <- Val1 Vias <- ViaDirect Big = 3 MaxFlush = 2 MaxDrops = 2 MaxBulk = 1
 SPECIFICATION Spec
 VIEW View
 ACTION_CONSTRAINT EmitEdge
